@@ -25,6 +25,21 @@ def run(tier, seed):
     import webauthn
     perm = optsim.token_perm()
     nh, L = (60, 12) if quick else (800, 60)
+    # caller values of every size and count pass through unchanged: these argument sets are used first, then the random ones
+    forced = []
+    for n in fw.size_ladder(cap=70000):
+        for is_reg in (True, False):
+            a = optsim.gen_reg_args(rng) if is_reg else optsim.gen_auth_args(rng)
+            a["challenge"] = bytes(i % 251 for i in range(n))
+            lst = [{"id": bytes((i * 7) % 253 for i in range(n)), "transports": ["usb", "nfc"]}, {"id": b"short-id", "transports": None}, {"id": bytes(n - 1), "transports": []}]
+            if n <= 1100:
+                lst += [{"id": i.to_bytes(3, "big"), "transports": None} for i in range(n)]
+            a["exclude" if is_reg else "allow"] = lst
+            if is_reg:
+                a["user_id"] = bytes(n % 256 for _ in range(min(n, 64))) if n % 2 else a["user_id"]
+                a["algs"] = (optsim.ALGS * (n // len(optsim.ALGS) + 1))[:n] if n <= 300 else a["algs"]
+                a["hints"] = (optsim.HINTS * n)[:n] if n <= 300 else a["hints"]
+            forced.append((is_reg, a))
     for h in range(nh):
         with optsim.Tape(seed * 1000 + h) as tape:
             draws_used = 0
@@ -33,7 +48,9 @@ def run(tier, seed):
                     random.seed(rng.randrange(5))          # reseeding the non-cryptographic module must change nothing
                 is_reg = rng.random() < 0.6
                 a = optsim.gen_reg_args(rng) if is_reg else optsim.gen_auth_args(rng)
-                if rng.random() < 0.08:
+                if forced:
+                    is_reg, a = forced.pop(0)
+                elif rng.random() < 0.08:
                     a[rng.choice(["rp_id", "rp_name", "user_name"] if is_reg else ["rp_id"])] = ""
                 n_before = len(tape.reads)
                 got = []
